@@ -19,7 +19,7 @@ from typing import List, Tuple, Dict
 
 import deep.logging
 from deep.api.tracepoint.tracepoint_config import MetricDefinition
-from deep.processor.context.action_context import ActionContext
+from deep.processor.context.action_context import ActionContext, FailedExpression
 
 
 class MetricActionContext(ActionContext):
@@ -60,8 +60,13 @@ class MetricActionContext(ActionContext):
         metric_value = 1
         if metric.expression:
             try:
-                metric_value = float(self.trigger_context.evaluate_expression(metric.expression))
-            except Exception:
+                result = self.trigger_context.evaluate_expression(metric.expression)
+                if isinstance(result, FailedExpression):
+                    deep.logging.error("Cannot process metric expression %s: %s", metric.expression,
+                                       type(result.error).__name__)
+                else:
+                    metric_value = float(result)
+            except BaseException:
                 deep.logging.exception("Cannot process metric expression %s", metric.expression)
 
         labels = {}
@@ -70,8 +75,15 @@ class MetricActionContext(ActionContext):
                 key = label.key
                 if label.expression:
                     try:
-                        value = str(self.trigger_context.evaluate_expression(label.expression))
-                    except Exception:
+                        result = self.trigger_context.evaluate_expression(label.expression)
+                        if isinstance(result, FailedExpression):
+                            # the text of the exception is not the value of the label
+                            deep.logging.error("Cannot process metric label expression %s: %s: %s", key,
+                                               label.expression, type(result.error).__name__)
+                            value = 'expression failed'
+                        else:
+                            value = str(result)
+                    except BaseException:
                         deep.logging.exception("Cannot process metric label expression %s: %s", key, label.expression)
                         value = 'expression failed'
                 else:
